@@ -102,6 +102,12 @@ func serveCapture(r *fox.Router, req *http.Request) (g *ghost, panicked any) {
 	return
 }
 
+func serveCaptureRich(r *fox.Router, req *http.Request) (g *ghost, panicked any) {
+	g = &ghost{sc: &script{}, hdr: http.Header{}}
+	panicked = panicsWith(func() { r.ServeHTTP(richW{g, &capCalls{}}, req) })
+	return
+}
+
 func sameGhost(a, b *ghost) bool {
 	if len(a.finals) != len(b.finals) || a.accepted != b.accepted || a.infos != b.infos || string(a.body) != string(b.body) {
 		return false
@@ -132,7 +138,7 @@ func sameGhost(a, b *ghost) bool {
 // and never alters the response or a panic.
 func HarnessC20Log(st any) {
 	s := st.(*c20State)
-	behaviour := sym.Choose("behaviour", 9)
+	behaviour := sym.Choose("behaviour", 10)
 	code := 200
 	if behaviour == 0 || behaviour >= 6 {
 		code = sym.Int("code", 100, 999)
@@ -162,11 +168,24 @@ func HarnessC20Log(st any) {
 		case 8:
 			c.Writer().WriteHeader(http.StatusCreated)
 			c.Writer().WriteHeader(code) // superfluous
+		case 9:
+			// streaming style: flush first (sends the implicit 200), then a late status
+			_ = c.Writer().FlushError()
+			c.Writer().WriteHeader(code)
 		}
 		s.sink.seq++
 		handlerDone = s.sink.seq
 	}
 	req := c20Request(s.kind)
+	if s.kind == hkNoRoute && sym.ParamOr("raw", 0) == 1 {
+		// a request whose escaped form differs from the default encoding of its path (RawPath set by net/http)
+		req.URL.Path, req.URL.RawPath = "/nope/a/b", "/nope/a%2Fb"
+		sym.Cover("request with RawPath")
+	}
+	serve := serveCapture
+	if behaviour == 9 {
+		serve = serveCaptureRich // a writer offering FlushError
+	}
 	// a quiet request to the route first: the context the request under test reuses has served a route
 	// (with its own client IP resolver when resolver=3)
 	quiet := behaviour
@@ -176,10 +195,10 @@ func HarnessC20Log(st any) {
 	behaviour = quiet
 	s.sink.recs, s.sink.seq = nil, 0
 	handlerDone = 0
-	g1, p1 := serveCapture(s.logged, req)
+	g1, p1 := serve(s.logged, req)
 	recs := s.sink.recs
 	doneAt := handlerDone
-	g2, p2 := serveCapture(s.bare, req)
+	g2, p2 := serve(s.bare, req)
 
 	// the middleware never alters the response or a panic passing through it
 	sym.Assert(sameGhost(g1, g2), "response (status, headers, bytes) identical with and without the Logger middleware")
